@@ -17,6 +17,14 @@ import (
 
 func init() { streams["c14"] = streamC14 }
 
+// session identifiers as the gateway forms them (the TCP peer of the client's connection):
+// A and B are two connections from one address, C comes from another address
+const (
+	sessA = "192.0.2.7:50001"
+	sessB = "192.0.2.7:50002"
+	sessC = "192.0.2.8:50001"
+)
+
 // symbolic NTLM operation
 type nop struct {
 	sess string
@@ -185,7 +193,7 @@ func streamC14(env *runEnv) {
 	}
 	users := []string{"alice", "bob", "carol", "mallory", "ALICE", ""}
 	pws := []string{"wonderland", "wrong", "", "pässwörd"}
-	sessions := []string{"A", "B", "C", ""}
+	sessions := []string{sessA, sessB, sessC, ""}
 	mkop := func(hist []nop) nop {
 		sess := sessions[r.Intn(len(sessions)-1)]
 		if r.Intn(25) == 0 {
@@ -244,14 +252,14 @@ func streamC14(env *runEnv) {
 	}
 	// (a) all histories of length <= 3 over a small alphabet, one session pair
 	small := []nop{
-		{sess: "A", kind: "neg"}, {sess: "B", kind: "neg"},
-		{sess: "A", kind: "auth", user: "alice", pw: "wonderland", from: -1}, // -1: latest negotiate of the session
-		{sess: "B", kind: "auth", user: "alice", pw: "wonderland", from: -2}, // -2: latest negotiate of the OTHER session
-		{sess: "A", kind: "auth", user: "alice", pw: "wrong", from: -1},
-		{sess: "A", kind: "auth", user: "bob", pw: "", from: -1},
-		{sess: "A", kind: "garbage"},
-		{sess: "A", kind: "auth", user: "carol", pw: "wrong", from: -1},
-		{sess: "A", kind: "authas", user: "alice", keyUser: "carol", keyPw: "pässwörd", from: -1},
+		{sess: sessA, kind: "neg"}, {sess: sessB, kind: "neg"},
+		{sess: sessA, kind: "auth", user: "alice", pw: "wonderland", from: -1}, // -1: latest negotiate of the session
+		{sess: sessB, kind: "auth", user: "alice", pw: "wonderland", from: -2}, // -2: latest negotiate of the OTHER session
+		{sess: sessA, kind: "auth", user: "alice", pw: "wrong", from: -1},
+		{sess: sessA, kind: "auth", user: "bob", pw: "", from: -1},
+		{sess: sessA, kind: "garbage"},
+		{sess: sessA, kind: "auth", user: "carol", pw: "wrong", from: -1},
+		{sess: sessA, kind: "authas", user: "alice", keyUser: "carol", keyPw: "pässwörd", from: -1},
 	}
 	maxLen := 3
 	if env.thorough() {
@@ -266,7 +274,7 @@ func streamC14(env *runEnv) {
 				if ops[i].from < 0 {
 					want := ops[i].sess
 					if ops[i].from == -2 {
-						want = map[string]string{"A": "B", "B": "A"}[want]
+						want = map[string]string{sessA: sessB, sessB: sessA}[want]
 					}
 					ops[i].from = 0
 					for j := i - 1; j >= 0; j-- {
@@ -302,8 +310,8 @@ func streamC14(env *runEnv) {
 	}
 	// (c) expiry of the cached context (real waits; thorough tier only)
 	if env.thorough() {
-		jobs = append(jobs, job{dbs[0], []nop{{sess: "A", kind: "neg"}, {sess: "A", kind: "auth", user: "alice", pw: "wonderland", from: 1, wait: 62}}})
-		jobs = append(jobs, job{dbs[0], []nop{{sess: "A", kind: "neg"}, {sess: "A", kind: "auth", user: "alice", pw: "wonderland", from: 1, wait: 3}}})
+		jobs = append(jobs, job{dbs[0], []nop{{sess: sessA, kind: "neg"}, {sess: sessA, kind: "auth", user: "alice", pw: "wonderland", from: 1, wait: 62}}})
+		jobs = append(jobs, job{dbs[0], []nop{{sess: sessA, kind: "neg"}, {sess: sessA, kind: "auth", user: "alice", pw: "wonderland", from: 1, wait: 3}}})
 	}
 	parallel(jobs, func(e *l1env, j job) {
 		var specs []string
